@@ -26,8 +26,19 @@ if not m:
             def group(self, i): return [None, m3.group(2), "./" + m3.group(1).strip("/")][i]
         m = _M()
 if not m:
-    m2 = re.search(r"go test[^\n]*-run\s+(\S+)[^\n]*", hdr)
-    out["error"] = "cannot parse demo header"; json.dump(out, open(f"/tmp/seedconf/{name}.json","w"), indent=1); sys.exit(1)
+    # no command in the header: derive it from the package clause and the test functions of the demo
+    full = open(demo).read()
+    pk = re.search(r"^package (\w+)", full, re.M).group(1)
+    pkdir = {"masswallet": "./masswallet", "masswallet_test": "./masswallet", "keystore": "./masswallet/keystore", "keystore_test": "./masswallet/keystore",
+             "txmgr": "./masswallet/txmgr", "txmgr_test": "./masswallet/txmgr", "db_test": "./masswallet/db", "db": "./masswallet/db", "ldb": "./masswallet/db/ldb",
+             "api": "./api", "api_test": "./api", "utils": "./masswallet/utils", "utils_test": "./masswallet/utils", "hdkeychain": "./masswallet/keystore/hdkeychain",
+             "hdkeychain_test": "./masswallet/keystore/hdkeychain", "main": "."}.get(pk)
+    tests = re.findall(r"^func (Test\w+)\(", full, re.M)
+    if not pkdir or not tests:
+        out["error"] = "cannot parse demo header"; json.dump(out, open(f"/tmp/seedconf/{name}.json","w"), indent=1); sys.exit(1)
+    class _M2:
+        def group(self, i): return [None, "^(" + "|".join(tests) + ")$", pkdir][i]
+    m = _M2()
 runpat, pkgdir = m.group(1), m.group(2).rstrip("/")
 out["demo_run"], out["demo_dir"] = runpat, pkgdir
 rc, o = run(f"git apply --check {src}/patch.diff")
